@@ -39,11 +39,40 @@ type pairScript struct {
 	tag      string
 	sawError [2]map[uint32]bool
 	wfail    [2]bool
+
+	sentClose, sentNotice [2]int64 // stream-closing frames / session-closing notices each side has put on the wire
 }
 
 func sname(i int) string { return string(rune('A' + i)) }
 
-func (ps *pairScript) state(i int) string { return mux.VerifSessionState(ps.rg.S[i].sesh) }
+// state: the session's bookkeeping plus what this side has put on the wire so far: stream-closing frames / session-closing
+// notices (decoded from every record its connections accepted for sending)
+func (ps *pairScript) state(i int) string {
+	return fmt.Sprintf("%s sent=%d/%d", mux.VerifSessionState(ps.rg.S[i].sesh), atomic.LoadInt64(&ps.sentClose[i]), atomic.LoadInt64(&ps.sentNotice[i]))
+}
+
+func (ps *pairScript) tapAll() {
+	for i := 0; i < 2; i++ {
+		i := i
+		for _, cn := range ps.rg.S[i].conns {
+			if cn.tap != nil {
+				continue
+			}
+			cn.tap = func(rec []byte) {
+				_, _, closing, _, err := mux.VerifDecode(ps.rg.method, ps.rg.key, rec)
+				if err != nil {
+					return
+				}
+				switch closing {
+				case 1:
+					atomic.AddInt64(&ps.sentClose[i], 1)
+				case 2:
+					atomic.AddInt64(&ps.sentNotice[i], 1)
+				}
+			}
+		}
+	}
+}
 
 func (ps *pairScript) viol(sig string, detail map[string]any) {
 	detail["tag"] = ps.tag
@@ -469,6 +498,7 @@ func newPairScript(c *ctx, method byte, nconn int, sp bool, inact time.Duration,
 	copy(key[:], c.r.bytes(32))
 	ps := &pairScript{c: c, sp: sp, inact: inact, tag: tag}
 	ps.rg = newSeshPair(method, key, nconn, sp, false, inact)
+	ps.tapAll()
 	for i := 0; i < 2; i++ {
 		ps.written[i] = map[uint32][]byte{}
 		ps.readb[i] = map[uint32][]byte{}
